@@ -143,7 +143,7 @@ def extreme_cases(seed, quick):
             doc["Modules"][k]["area"] = dict(items)
             cases.append(c05.with_form(rng, {"stream": "extreme", "tag": "ground-absorbs", "exact": nb.extreme_exact(doc),
                                              "doc": doc}, p_history=0.05))
-    for _ in range(50 if quick else 300):
+    for _ in range(35 if quick else 300):
         base = nb.rich_doc(rng) if rng.random() < 0.3 else nc.gen_doc(rng, quirks=False)
         d, tags, exact = nb.extremes(rng, base)
         cases.append(c05.with_form(rng, {"stream": "extreme", "tag": "+".join(sorted(set(tags))), "exact": exact, "doc": d},
@@ -179,7 +179,7 @@ def run(ctx, out, replay=None):
                 "document with every module kind and documents of 9..257 (1001) modules, 9..65 (257) members, 33..101 (1001) "
                 "nets, 9..65 (161) rectangles, names of 32..4097 (8193) characters, 9..33 (101) regions; half of the new "
                 "streams given as the tree, as hand-spelled YAML text (1e3, +2, .5, 0x1F, quoted names), as a file name or as an open text stream, "
-                "plus the `extreme` stream (65 / 330 documents, own random stream): areas, centres, aspect ratios and net weights "
+                "plus the `extreme` stream (50 / 330 documents, own random stream): areas, centres, aspect ratios and net weights "
                 "at 5e-324, 2^-1022, 1e-300, 2^-60, 1e17, 4e17, 2^53, 2^53 + 1 (int), 2^53 + 2, 2^60, 1e300, the largest float and "
                 "infinity, per-region areas whose float sum absorbs all regions but one (ground 4e17 / 2^53 / inf / 40 next to "
                 "12 / 1 / 40 / 5e-324, or the other way round) - with the model where it can be run (finite binary64 values), "
